@@ -33,6 +33,10 @@ ASSUMPTIONS = [
     "NO-TIMEOUT configuration: a manager built with request timeout Duration::MAX or u64::MAX/2 s never times a request "
     "out (NoTimeout = TRUE): every accepted request is answered by the client's own response; a request the client "
     "never answers is then legitimately never answered",
+    "request timeout 0: a request whose client response is not ready when the request future is first polled times out "
+    "at the accept instant; a client answering with delay 0 races the timeout at the same instant (either, as for every tie)",
+    "managers are built with ExecutionManager::new and, for the boundary-timeout / no-timeout / random families, through "
+    "the public ExecutionManager::init (the account snapshot must come first on the merged account stream)",
     "after Shutdown / end of the request stream pending requests are dropped unanswered (outside 'while running')",
     "tokio's select! branch order is drawn by tokio itself and cannot be seeded; every recorded outcome is validated",
 ]
@@ -167,7 +171,7 @@ def anomaly_sig(desc):
 
 
 # ----------------------------------------------------------------------------- validation
-def validate(ctx, trace_path, scenarios, label, big=False, expect=None, nt=False):
+def validate(ctx, trace_path, scenarios, label, big=False, expect=None, nt=False, T=TIMEOUT_MS):
     """TLC-validate one recorded trace; report every rejected line as a violation (or, for the
     self-test, return the set of rejected line numbers)."""
     lines = ctx.read_trace(trace_path)
@@ -184,14 +188,14 @@ def validate(ctx, trace_path, scenarios, label, big=False, expect=None, nt=False
                       {"scenario": scenarios[seg[0]["n"]], "trace": seg})
     if not keep:
         return set()
-    cfg = "Trace_ExecManager%s%s.cfg" % ("_big" if big else "", "_nt" if nt else "")
+    cfg = "Trace_ExecManager%s%s.cfg" % ("_big" if big else "", "_nt" if nt else ("" if T == TIMEOUT_MS else "_t%d" % T))
     n, bad, truncated = ctx.tlc_trace("Trace_" + MODULE, cfg, clean)
     bad = sorted(set(bad))
     if expect is not None:
         return set(bad)
     for b in bad:
         seg = ctx.segment(keep, b)
-        for sig, desc in describe(seg, NO_TIMEOUT if nt else TIMEOUT_MS):
+        for sig, desc in describe(seg, NO_TIMEOUT if nt else T):
             if sig.startswith("tool:"):
                 raise vlib.ToolError(desc)
             ctx.violation(sig, "%s [%s, scenario %d, line %d]" % (desc, label, seg[0]["n"], b),
@@ -266,10 +270,10 @@ def selftest(ctx, trace_path, stall_trace_path):
     vlib.log("self-test: %d corrupted traces rejected" % len(cases))
 
 
-def run_scenarios(ctx, scn_path, scns, label, nt=False):
+def run_scenarios(ctx, scn_path, scns, label, nt=False, T=TIMEOUT_MS):
     out = ctx.path("trace_%s.ndjson" % label)
     info = ctx.harness("c07", "run", "--scenarios", scn_path, "--out", out)
-    validate(ctx, out, scns, label, nt=nt)
+    validate(ctx, out, scns, label, nt=nt, T=T)
     ctx.cov["scenarios_replayed"] += len(scns)
     return out, info
 
@@ -293,13 +297,15 @@ def check(ctx):
     if ctx.quick:
         ctx.tlc_mc(MODULE, "MC_ExecManager.cfg", timeout=900, coverage=False)
         ctx.tlc_mc(MODULE, "MC_ExecManager_live.cfg", timeout=900)
-        ctx.tlc_mc(MODULE, "MC_ExecManager_notimeout.cfg", timeout=900, ignore_uncovered=("TimeoutFires",))
+        ctx.tlc_mc(MODULE, "MC_ExecManager_notimeout.cfg", timeout=900, coverage=False)
+        ctx.tlc_mc(MODULE, "MC_ExecManager_t0.cfg", timeout=900, coverage=False)    # Timeout = 0
     else:
         ctx.tlc_mc(MODULE, "MC_ExecManager_thorough.cfg", timeout=1800, coverage=False)
         ctx.tlc_mc(MODULE, "MC_ExecManager_thorough2.cfg", timeout=1800, coverage=False)
         ctx.tlc_mc(MODULE, "MC_ExecManager_live.cfg", timeout=900)
         ctx.tlc_mc(MODULE, "MC_ExecManager_live_thorough.cfg", timeout=1800, coverage=False)
         ctx.tlc_mc(MODULE, "MC_ExecManager_notimeout.cfg", timeout=900, ignore_uncovered=("TimeoutFires",))
+        ctx.tlc_mc(MODULE, "MC_ExecManager_t0.cfg", timeout=900)
     # the closing sentence of C07 ("an order the engine shows as in flight is always eventually
     # resolved") is a liveness property of the COMPOSITION engine + request channel + execution
     # manager + account feed (spec/BarterSystem.tla, weak fairness of manager / answer race / engine
@@ -327,7 +333,7 @@ def check(ctx):
     # u64::MAX/2 seconds ("huge") - the spec's NoTimeout: only the client's own response may answer,
     # also after ~11 days of virtual time
     _, scn_n = ctx.tlc_gen("Gen_" + MODULE, "GenN_ExecManager.cfg", "notimeout_bare.ndjson")
-    scn_n = [dict(s, tmode=m) for s in scn_n for m in ("max", "huge")]
+    scn_n = [dict(s, tmode=m, ctor=c) for s in scn_n for m, c in (("max", "new"), ("huge", "init"))]
     p_n = ctx.path("notimeout.ndjson")
     with open(p_n, "w") as f:
         for s_ in scn_n:
@@ -337,16 +343,37 @@ def check(ctx):
         raise vlib.ToolError("no-timeout scenarios were not run with a maximal request timeout")
     if not ctx.violations and not info_n.get("no_timeout_responses_after_long_delay"):
         raise vlib.ToolError("no-timeout scenarios delivered no response after a long delay")
+    # BOUNDARY timeouts 0 and 1 ms, managers built through the public ExecutionManager::init (T = 0:
+    # all; T = 1: every other one) - account snapshot first, then the same obligations
+    _, scn_z = ctx.tlc_gen("Gen_" + MODULE, "GenZ_ExecManager.cfg", "boundary_bare.ndjson")
+    built_with_init = info_n.get("built_with_init", 0)
+    for T in (0, 1):
+        fam = [dict(s, T=T, ctor="init" if T == 0 or j % 2 else "new") for j, s in enumerate(scn_z)]
+        p_z = ctx.path("boundary_t%d.ndjson" % T)
+        with open(p_z, "w") as f:
+            for s_ in fam:
+                f.write(json.dumps(s_) + "\n")
+        _, info_z = run_scenarios(ctx, p_z, fam, "timeout%dms" % T, T=T)
+        built_with_init += info_z.get("built_with_init", 0)
+        if info_z.get("init_snapshot_forwarded_first") != info_z.get("built_with_init"):
+            ctx.violation("anomaly:init-snapshot", "ExecutionManager::init did not forward the account snapshot first in %d of %d managers" % (
+                info_z.get("built_with_init", 0) - info_z.get("init_snapshot_forwarded_first", 0), info_z.get("built_with_init", 0)),
+                {"scenario": fam[0]})
+        ctx.cov["timeout_%dms" % T] = {k: info_z.get(k) for k in ("scenarios", "responses", "timeout_failures", "built_with_init")}
+    if not built_with_init:
+        raise vlib.ToolError("no manager was built through ExecutionManager::init")
+    ctx.cov["managers_built_with_init"] = built_with_init
     ctx.cov["no_timeout"] = {k: info_n.get(k) for k in ("no_timeout_scenarios", "responses", "timeout_failures",
                                                         "no_timeout_responses_after_long_delay")}
     if not ctx.quick:
         p_3, scn_3 = ctx.tlc_gen("Gen_" + MODULE, "GenT_ExecManager_thorough.cfg", "batches3.ndjson", timeout=900)
         run_scenarios(ctx, p_3, scn_3, "batches3")
-    nb = 3000 if ctx.quick else 40000
+    nb = 2000 if ctx.quick else 40000
     p_r, scn_r = ctx.tlc_gen("Gen_" + MODULE, "GenR_ExecManager.cfg", "simulated.ndjson", simulate=(nb, 8), timeout=900)
     run_scenarios(ctx, p_r, scn_r, "simulated")
     ctx.sample({"kind": "TLC batch (exhaustive)", "scenario": scn_t[len(scn_t) // 2]})
     ctx.sample({"kind": "TLC batch (request timeout Duration::MAX)", "scenario": scn_n[len(scn_n) // 2]})
+    ctx.sample({"kind": "TLC batch (request timeout 0, manager built with ExecutionManager::init)", "scenario": dict(scn_z[len(scn_z) // 2], T=0, ctor="init")})
     ctx.sample({"kind": "TLC batch (stalled executor)", "scenario": scn_s[len(scn_s) // 2]})
     ctx.sample({"kind": "TLC batch (simulated, with shutdown)", "scenario": next((s for s in scn_r if s["shut"] >= 0), scn_r[0])})
     # seeded random batches of up to 200 outstanding requests, several seeds / runs (each run is a
@@ -406,5 +433,6 @@ def replay(ctx, rp):
     out = ctx.path("replay_trace.ndjson")
     ctx.harness("c07", "run", "--scenarios", scn, "--out", out)
     big = max([r["id"] for r in rp["scenario"]["reqs"]] + [0]) > 4
-    validate(ctx, out, [rp["scenario"]] * reps, "replay", big=big, nt=rp["scenario"].get("tmode", "finite") != "finite")
+    validate(ctx, out, [rp["scenario"]] * reps, "replay", big=big, nt=rp["scenario"].get("tmode", "finite") != "finite",
+             T=rp["scenario"].get("T", TIMEOUT_MS))
     return ctx.finish(write_evidence=False)
